@@ -12,7 +12,7 @@ from .common import Discard, run_alg, well_formed, dataset_tags
 
 ID = "C06"
 ENVS = ["present", "absent", "present", "broken"]
-RUNS = {"quick": 1600, "thorough": 24000}
+RUNS = {"quick": 8000, "thorough": 80000}
 RULE = ("case = (dataset biased to sparse shapes, valid dyadic scheme, ParCons configurations (bound, spied auxiliary, "
         "RNG schedule) + other algorithms for the flag clause); distinct = distinct case digest; non-trivial = the "
         "partition has >= 2 groups or some ParCons component needed a solver / the auxiliary")
